@@ -1133,6 +1133,19 @@ class Interp:
                     kwargs[f"**{len(kwargs)}"] = op("starstar", to_term(v))
             else:
                 kwargs[kw.arg] = v
+        out_kw = next((kw for kw in node.keywords if kw.arg == "out" and isinstance(kw.value, ast.Name)), None)
+        if out_kw is not None and isinstance(fv, Ext) and is_term(kwargs.get("out")):
+            # numpy `out=` / `where=`: the result is written into the named buffer (only where the mask holds)
+            old = kwargs.pop("out")
+            mask = kwargs.pop("where", None)
+            r = self.call(fv, args, kwargs, env, node)
+            if mask is not None and is_term(r):
+                new = self.lib.term_setitem(self, to_term(old), to_term(mask), self.lib.term_getitem(self, to_term(r), to_term(mask), env, node),
+                                            env, node)
+            else:
+                new = r
+            self.assign_target(ast.Name(id=out_kw.value.id, ctx=ast.Store()), new, env, node)
+            return new
         return self.call(fv, args, kwargs, env, node)
 
     def _comp(self, node, env, kind):
